@@ -8,7 +8,7 @@ import units
 from units import PASS, VIOLATION, INCONCLUSIVE, VERIF, BUILD
 
 _cache = {}
-HOOK_COMMITS = ['13ec4a7']
+HOOK_COMMITS = ['6430406', '13ec4a7']
 
 SHAPES_Q = '0:1,1:1,2:2,3:1,4:4,8:8,12:4,0:4'
 SHAPES_T = '0:1,1:1,2:2,3:1,4:4,8:8,12:4,0:4,16:16,24:8,2:1,0:8'
@@ -297,6 +297,15 @@ K_B5 = dict(INCRATE, name='kani-builder-lookup', harnesses=['generic::verif_kani
                        'truc/src/record/definition/builder/generic/mod.rs get_variant_datum_definition_by_name', 'truc/src/record/definition/builder/generic/mod.rs add_datum (duplicate-name check)'],
             assumptions=['alloc::fmt::format is stubbed by an empty string (error text is not part of the property; formatting dominates CBMC cost)'])
 
+def k_simple(tier):
+    hs = ['l7_select_best', 'l7_c01_c02_select_start', 'gaps_are_the_holes_n2'] + (['gaps_are_the_holes_n3'] if tier == 'thorough' else [])
+    return dict(INCRATE, name='kani-simple-leaves', harnesses=hs, min_harnesses=3,
+                bounded='BOUNDED (except select_best, which is complete: full usize domain, 64-shift loop unwound with unwinding assertions): '
+                        'select_start_or_end_of_gap on values < 2^16 and power-of-two alignments <= 16; compute_initial_gaps on lists of <= %d data' % (3 if tier == 'thorough' else 2),
+                functions=['truc/src/record/definition/builder/native/variant/simple.rs select_best', 'truc/src/record/definition/builder/native/variant/simple.rs select_start_or_end_of_gap',
+                           'truc/src/record/definition/builder/native/variant/simple.rs compute_initial_gaps'])
+
+
 PROPERTIES['C13'] = {
     'level': 'model_checking',
     'units': lambda tier: [V_NATIVE, K_DEF, V_LAYOUT, BX_SIMPLE],
@@ -306,9 +315,9 @@ PROPERTIES['C13'] = {
     'unchecked': ['generate() itself (string emission through codegen/format!) and "the generated module compiles with any fragment selection": outside both verifiers; the corpus modules of gk compile, which is observed, not decided'],
 }
 
-PROPERTIES['C01']['units'] = lambda tier: [V_LAYOUT, BX_SIMPLE, K_DEF, V_BUILDER]
+PROPERTIES['C01']['units'] = lambda tier: [V_LAYOUT, BX_SIMPLE, k_simple(tier), K_DEF, V_BUILDER]
 PROPERTIES['C02'] = dict(PROPERTIES['C01'])
-PROPERTIES['C02']['units'] = lambda tier: [V_LAYOUT, BX_SIMPLE, K_DEF, GK]
+PROPERTIES['C02']['units'] = lambda tier: [V_LAYOUT, BX_SIMPLE, k_simple(tier), K_DEF, GK]
 PROPERTIES['C02']['explanation'] = ('Alignment and address order are clauses of the variant invariant WF proved (Verus) for align_bytes, end, push_datum, append_data, '
     'append_data_reverse, basic on text extracted from /repo; simple() bounded. Capacity and record alignment: Kani contract of max_size / max_type_align '
     '(every datum of a variant ends at or before max_size, max_type_align is a multiple of its alignment). Published constants: corpus harnesses assert '
